@@ -20,6 +20,8 @@ From MV Require Import Opt.OptMarks.
 From MV Require Import Opt.OptCommentsDef.
 From MV Require Import Opt.OptComments.
 From MV Require Import Opt.OptNul.
+From MV Require Import Opt.OptBreaksDef.
+From MV Require Import Opt.OptBreaksAll.
 From MV Require Import Opt.OptSrcTop.
 From MV Require Import Opt.OptSrcCompose.
 From MV Require Import Opt.OptSrcAll.
@@ -146,15 +148,42 @@ Theorem C07_nul_truncates : forall a b : str,
 Proof. exact nul_truncates. Qed.
 Print Assumptions C07_nul_truncates.
 
+(* ---- Round 3: line-break kinds, indented comments ---- *)
+
+(* C07_yaml_agree now also covers a comment line with leading spaces directly after a multi-line
+   plain value or a block scalar (after a block scalar it must be indented less than the scalar,
+   otherwise it is a line of the scalar): wf_adj in Opt/YamlSpec.v. *)
+
+(* The kind of line break does not matter: whenever the tokenizer returns pairs on a text without
+   carriage returns it returns the same pairs on the text with every LF replaced by CR LF, and on
+   the text with every LF replaced by CR (any text, not only the YAML subset). *)
+Theorem C07_line_breaks_transparent : forall (T : str) r, no_cr T = true ->
+  options_to_items T = Ok r ->
+  options_to_items (crlf T) = Ok r /\ options_to_items (cr_only T) = Ok r.
+Proof. exact line_breaks_transparent. Qed.
+Print Assumptions C07_line_breaks_transparent.
+
+(* hence agreement with YAML on the whole subset printed with CR LF, or with CR, as line break *)
+Theorem C07_yaml_agree_crlf : forall b : block,
+  wf_block b = true -> options_to_items (crlf (print_block b)) = Ok (meaning_block b).
+Proof. exact yaml_agree_crlf. Qed.
+Print Assumptions C07_yaml_agree_crlf.
+
+Theorem C07_yaml_agree_cr : forall b : block,
+  wf_block b = true -> options_to_items (cr_only (print_block b)) = Ok (meaning_block b).
+Proof. exact yaml_agree_cr. Qed.
+Print Assumptions C07_yaml_agree_cr.
+
 (* ---- Round 3: the theorems for the code as it is written now ---- *)
 
 (* [options_to_items_src] is the tokenizer whose thirteen scanner functions (_scan_line_break,
    _scan_to_next_token, _scan_plain_spaces, _scan_plain_scalar, _scan_flow_scalar and its three
-   helpers, _scan_block_scalar and its four helpers) are the Gallina terms that gen/c07_src.py
-   translates statement by statement from myst_parser/parsers/options.py on every run
-   (Gen/OptSrc.v), put under the hand-written model of the _tokenize / _to_tokens loops
-   (Opt/OptSrcTop.v).  Opt/OptSrcProofs.v and Opt/OptSrcCompose.v prove each translated function
-   equal to its hand-written counterpart, hence: *)
+   helpers, _scan_block_scalar and its four helpers) and whose generator _tokenize are the Gallina
+   terms that gen/c07_src.py translates statement by statement from
+   myst_parser/parsers/options.py on every run (Gen/OptSrc.v: ..._src, tokenize_src), put under
+   the hand-written model of _to_tokens / options_to_items and over the hand-written StreamBuffer
+   primitives (Opt/OptSrcTop.v).  Opt/OptSrcProofs.v and Opt/OptSrcCompose.v prove each translated
+   function equal to its hand-written counterpart, hence: *)
 Theorem C07_src_refines : forall text : str, options_to_items_src text = options_to_items text.
 Proof. exact options_to_items_src_eq. Qed.
 Print Assumptions C07_src_refines.
